@@ -26,7 +26,8 @@ Definition T0 : Z := 946684800000000000.
 Theorem wait_ge_retry_after_unpatched_refuted :
   exists c evs t b n p,
     mult_ok b
-    /\ Forall (fun x => 0 <= r_j x < max_jitter_ns /\ r_at x <= r_resp x) (o_trace (run_call conv_unpatched c t b evs))
+    /\ forallb (fun x => (0 <=? r_j x) && (r_j x <? max_jitter_ns) && (r_at x <=? r_resp x))
+               (o_trace (run_call conv_unpatched c t b evs)) = true
     /\ match o_trace (run_call conv_unpatched c t b evs) with
        | x :: _ => r_out x = OResp 503 (RASeconds n) p
                    /\ r_next x < r_resp x + Z.min (n * 1000000000) max_i64
@@ -38,7 +39,7 @@ Proof.
          [mkEv 0 (OResp 503 (RASeconds 9223372037) false) 0 (JGiven 0); mkEv 0 (OResp 200 RANone true) 1 (JGiven 0)],
          T0, fresh_backoff, 9223372037, false.
   split; [exact mult_ok_fresh|]. split.
-  - vm_compute. repeat constructor; discriminate.
+  - vm_compute. reflexivity.
   - vm_compute. repeat split.
 Qed.
 Print Assumptions wait_ge_retry_after_unpatched_refuted.
